@@ -162,7 +162,8 @@ def handle (st : St) (line : String) : St × String :=
       match sc.finish ⟨inr == "1", secs⟩ tail with
       | .ok (sc', lst, raw) =>
         ({ st with score := some sc' },
-         " ".intercalate (s!"L{lst.length}" :: lst.map (fun b => fmtPV (.list b))) ++ " | " ++ toHex raw)
+         " ".intercalate (s!"L{lst.length}" :: lst.map (fun b => fmtPV (.list b))) ++ " | " ++ toHex raw
+           ++ " | " ++ (match sc'.duration with | some d => fmtRat d | none => "None"))
       | .error e => (st, "err " ++ errName e)
     | _, _, _ => (st, "bad-op")
   | _ => (st, "bad-op")
